@@ -160,6 +160,20 @@ impl Property for C10 {
             let mstore = SimWalStore::from_image(&mimg);
             let rot2 = match WalRotator::new(mstore.clone(), max_file_size) { Ok(r) => r, Err(e) => { rep.violate("C10/recover-setup-error", e.to_string()); break; } };
             let rec = match rot2.recover_all_entries() { Ok(r) => r, Err(e) => { rep.violate("C10/recover-error", format!("{:?}: {}", m, e)); break; } };
+            // the read with a stamp threshold sees the same image the same way: exactly the entries of the full
+            // read that carry such a stamp (it must not walk through damage it did not have to decode)
+            if !rec.is_empty() || !specs.is_empty() {
+                let mut stamps: Vec<u64> = specs.iter().map(|s| s.1).collect(); stamps.sort();
+                let thr = stamps.get(stamps.len() / 2).copied().unwrap_or(0);
+                let want: Vec<u64> = rec.iter().filter(|e| e.timestamp >= thr).map(|e| e.timestamp).collect();
+                if let Ok(ds) = rot2.recover_entries_after(thr) {
+                    rep.probe("threshold_read_compared");
+                    if ds.len() != want.len() {
+                        rep.violate("C10/threshold-read-differs-from-full-read", format!("{:?}: recover_entries_after({}) returned {} updates but recover_all_entries() holds {} entries with such a stamp (of {} recovered)", m, thr, ds.len(), want.len(), rec.len()));
+                        break;
+                    }
+                }
+            }
             // expected: files in order; undamaged files complete; damaged file a prefix with >= m entries
             let mut pos = 0usize;
             let mut bad: Option<(String, String)> = None;
